@@ -8,6 +8,7 @@ RULE = ("cycles of 1..6 elements (durations 1..9, sometimes up to 10^6; all colo
         "distinct = distinct canonical JSON of the case")
 ASSUMPTIONS = ["numpy cumsum/insert/argmax on int64 denote their list counterparts (sampled by the correspondence)",
                "durations and time steps fit in int64 (numpy); the model uses unbounded integers"]
+EXTRA_MODULES = ['CRProps.T17']      # translator tie: Gen.Src (regenerated from /repo every run) = hand model
 REQUIRED_BUCKETS = ["single-element", "t<offset", "boundary", "many-periods", "light/cycle-replaced"]
 
 
